@@ -38,6 +38,8 @@ var CRLBehaviours = []string{
 	// a delta whose thisUpdate is EARLIER than the base's (the producer of a
 	// delta picks that field): authentic and current, or not
 	"delta-older-ok", "delta-older-wrong-signer", "delta-older-expired", "delta-older-forged-remove",
+	// next-update has passed, but lies AFTER the signing time the scenarios supply
+	"expired-after-st", "delta-expired-after-st",
 	"delta-no-number", "base-no-number-delta",
 	"fetch-fail",
 }
@@ -213,6 +215,10 @@ func (k *Kit) buildCRL(beh string, slot int) *CRLSet {
 		base.SignKey = unrelated
 	case "expired":
 		base.NextUpdate = pki.Past.Add(time.Hour)
+	case "expired-after-st":
+		base.NextUpdate = SigningTime.Add(24 * time.Hour)
+	case "delta-expired-after-st":
+		delta.NextUpdate = SigningTime.Add(24 * time.Hour)
 	case "no-nextupdate":
 		base.NextUpdate = time.Time{}
 	case "crit-list-ext":
